@@ -61,6 +61,20 @@ class ApiModel(object):
         self.passed.append(passed)
         self.ctx.count("ops.set_custom")
 
+    def op_set_neighbour(self, rng):
+        """A table one edit away from the current one (key removed / added / changed)."""
+        t = tablegen.neighbour_table(rng, self.model)
+        passed = dict(t)
+        self.log.append(["set", dict(t)])
+        r = call_guard(lambda: self.sf.set_semantic_constraints(passed))
+        if r[0] != "ok":
+            self.disagree("valid-update-rejected", "table %r: %r" % (t, r))
+            return
+        self.model = dict(t)
+        self.added, self.removed = set(), set()
+        self.passed.append(passed)
+        self.ctx.count("ops.set_neighbour")
+
     def op_set_invalid(self, rng):
         value, reason = tablegen.invalid_update(rng)
         before = self.observe()
@@ -195,8 +209,10 @@ class ApiModel(object):
         op = rng.random()
         if op < 0.12:
             self.op_set_preset(rng)
-        elif op < 0.30:
+        elif op < 0.22:
             self.op_set_custom(rng)
+        elif op < 0.30:
+            self.op_set_neighbour(rng)
         elif op < 0.45:
             self.op_set_invalid(rng)
         elif op < 0.55:
